@@ -259,8 +259,8 @@ pub fn prefix_seed_files(cfg: &Cfg) -> Vec<Vec<u8>> {
     let a = mk(vec![(0, vec![(0, 0, 1, 0, Age::Fresh(100))])]);
     let b = mk(vec![
         (0, vec![(0, 0, 3, 1, Age::Fresh(9000)), (20000, 2, 1, 0, Age::Fresh(3))]),
-        (9000, vec![(0, 3, 2, 5, Age::Fresh(1)), (40000, 1, 7, 7, Age::Expired(5))]),
-        (30000, vec![(0, 0, 1, 0, Age::Epoch)]),
+        (20000, vec![(0, 3, 2, 5, Age::Fresh(1)), (40000, 1, 7, 7, Age::Expired(5)), (20000, 2, 4, 4, Age::Fresh(30000))]),
+        (40000, vec![(0, 0, 1, 0, Age::Epoch)]),
     ]);
     let now = SystemTime::now();
     vec![
